@@ -1,6 +1,7 @@
 import FrappyProofs.Lemmas.CommReply
 import FrappyProofs.Lemmas.CommVisible
 import FrappyProofs.Lemmas.CommRate
+import FrappyProofs.Lemmas.CommBook
 import FrappyModel.Generated.C16
 /-
 C16 — property theorems (nothing but property theorems and their non-vacuity examples).
@@ -329,6 +330,72 @@ theorem reconnect_rate_limited (cfg : Cfg) (cbs : List Nat) (evs : List TEv) (ha
           (fun m h1 h2 => by rw [← evAt_take evs j m h2]; exact hno m h1 (by rw [hlen]; exact h2))
           i (by omega) hij
         exact hci this
+
+/-- Delays honoured — for EVERY accepted run: in a multicomm call of caller `c` (started at position a with requests
+`reqs`, not yet returned), two consecutive sends of `c` at positions p < q are at least the delay of the request sent
+at p apart; that request is `reqs[m]` where m is the number of sends of the call before p. -/
+theorem delays_honoured_run (cfg : Cfg) (cbs : List Nat) (evs : List TEv) (hacc : Accepted cfg cbs evs)
+    (c a p q : Nat) (reqs : List Req) (ha : evAt evs a = some (.call c .multi reqs)) (hap : a < p) (hpq : p < q)
+    (hnr : ∀ m, a < m → m < q → isRetOf c (evAt evs m) = false)
+    (hp : sendAt evs p = some c) (hq : sendAt evs q = some c) (hno : ∀ m, p < m → m < q → sendAt evs m ≠ some c) :
+    timeAt evs p + (reqs.getD (sendsIn evs c a p).length noReq).delay ≤ timeAt evs q := by
+  unfold Accepted at hacc
+  cases hex : exec { cfg := cfg, cbsReg := cbs } evs with
+  | none => simp [hex] at hacc
+  | some sf =>
+    have hqlt := sendAt_lt_length evs q c hq
+    obtain ⟨eq, heq⟩ : ∃ eq, evs[q]? = some eq := ⟨evs[q], by simp [hqlt]⟩
+    obtain ⟨sk, sk', hpre, hst⟩ := exec_cut _ evs q eq heq sf hex
+    have hl := linv_exec cfg cbs (evs.take q) sk hpre
+    have hg := ginv_exec cfg cbs (evs.take q) sk hpre
+    have hlen : (evs.take q).length = q := by simp; omega
+    have hclk : sk.clock ≤ eq.t := by
+      unfold step at hst; split at hst
+      · simp at hst
+      · omega
+    have htq : timeAt evs q = eq.t := by simp [timeAt, heq]
+    obtain ⟨conn, n, d, hv⟩ : ∃ conn n d, eq.ev = .send c conn n d := by
+      simp only [sendAt, evAt, heq, Option.map_some] at hq
+      cases hv : eq.ev <;> simp only [hv] at hq <;> try (simp at hq)
+      subst hq; exact ⟨_, _, _, rfl⟩
+    rw [step_caller_form sk eq c (by rw [hv]; rfl)] at hst
+    split at hst
+    · simp at hst
+    · rw [hv] at hst
+      have hdrain := stale_send_pc _ _ _ _ _ _ _ hst
+      simp only at hdrain
+      obtain ⟨a', ha'l, hev', hnr', huniq, hcnt, hlast⟩ := hl.l1 c (by rw [hdrain]; simp)
+      -- the call the caller is in is the one at `a`
+      have haa : a = a' := by
+        apply huniq a
+        · rw [evAt_take evs q a (by omega), ha]; simp [isCallOf]
+        · intro m h1 h2; rw [hlen] at h2; rw [evAt_take evs q m h2]; exact hnr m h1 h2
+      subst haa
+      rw [evAt_take evs q a (by omega), ha] at hev'
+      simp only [Option.some.injEq, Ev.call.injEq, true_and] at hev'
+      obtain ⟨hkind, hreqs⟩ := hev'
+      -- how many sends so far
+      have hcount : (sk.callers c).sent = (sendsIn evs c a p).length + 1 := by
+        rw [hcnt, hlen, sendsIn_take]
+        have := sendsIn_last evs c a p hap hp (q - (p + 1)) (fun m h1 h2 => hno m h1 (by omega))
+        rw [show p + 1 + (q - (p + 1)) = q by omega] at this
+        rw [this]; simp
+      -- the last send is the one at p
+      obtain ⟨p', hap', hp'l, hp's, hp'no, hp't⟩ := hlast (by omega)
+      rw [hlen] at hp'l
+      have hpp : p' = p := by
+        rcases Nat.lt_trichotomy p' p with h | h | h
+        · exact absurd (by rw [sendAt_take evs q p hpq]; exact hp) (hp'no p h (by rw [hlen]; exact hpq))
+        · exact h
+        · rw [sendAt_take evs q p' hp'l] at hp's
+          exact absurd hp's (hno p' h hp'l)
+      subst hpp
+      rw [timeAt_take evs q p' hp'l] at hp't
+      have hg3 := (hg c).g3 hkind.symm (by omega) (by rw [hdrain]; rfl)
+      unfold lastDelay at hg3
+      rw [← hreqs, hcount] at hg3
+      simp only [Nat.add_sub_cancel] at hg3
+      rw [hp't, htq]; omega
 
 /-- stale data discarded, step level: a `send` is accepted only from the drain state, when everything that had
 arrived on the connection has been read away and the device has not closed; the receive buffer is emptied -/
